@@ -32,9 +32,10 @@ type RelaySpec struct {
 	// Winner: the relay is among Results.Providers (offered the winning bid).
 	Winner bool `json:"winner"`
 	// Steps: outcome of the 1st, 2nd, … unblind request; the last one repeats.
-	// block | slow (block after 30 ms) | sync (block, released together with the
-	// other sync relays) | err (5xx-like error) | 400 | hang (error when the
-	// context ends).
+	// block | slow (block after 30 ms) | late (block after 1.3 s, i.e. after
+	// another relay has used up several 250 ms back-offs) | sync (block, released
+	// together with the other sync relays) | err (5xx-like error) | 400 | hang
+	// (error when the context ends).
 	Steps []string `json:"steps"`
 }
 
@@ -90,6 +91,9 @@ type Case struct {
 	Randao       string `json:"randao"`   // ok | error
 	Graffiti     string `json:"graffiti"` // none (no provider) | ok | error
 	GraffitiText []byte `json:"graffiti_text,omitempty"`
+	// GraffitiDelayMs: the graffiti provider answers (or fails) only after this
+	// long, or with the context's error if its context ends first.
+	GraffitiDelayMs int `json:"graffiti_delay_ms,omitempty"`
 
 	Auction    string      `json:"auction"` // absent (no auctioneer) | error | result
 	Relays     []RelaySpec `json:"relays,omitempty"`
